@@ -12,11 +12,12 @@
    std float conversions are NOT defined in Coq: dec_parse / dec_fmt are universally quantified; the one law
    about them that a theorem needs (float_roundtrip_law) is an explicit hypothesis.
 
-   FINDING (genuine defect of the unchanged tree, see known_findings.json "float-prefixed-ge-2^64"):
-   a hexadecimal / binary / octal text whose value is >= 2^64 is handed, prefix and all, to the decimal conversion
-   (C20_float_prefixed_big): hexadecimal and binary then give nothing although the number fits binary64, octal gives
-   the DECIMAL reading of the digits — a different number (C20_float_prefixed_refuted).  C20_float_prefixed is
-   therefore stated for values < 2^64. *)
+   FINDING (genuine defect, repaired by a `fix:` commit in /repo, known_findings.json "float-prefixed-ge-2^64"):
+   parse_float converted prefixed texts through u64; a hexadecimal / binary / octal text with a value >= 2^64 fell
+   through to the decimal conversion: hexadecimal and binary gave nothing although the number fits binary64, octal
+   gave the DECIMAL reading of the digits (02000000000000000000000 = 2^64 came back as 2e21).  The repaired code
+   (float_from_radix_digits) is modelled in Value/CharData.v and proved correctly rounded for every length
+   (Value/RadixFloatProofs.v); C20_float_prefixed is now unconditional. *)
 From AV Require Import Base.Bytes Base.Outcome Regex.Regex Regex.Bisim Regex.Syntax.
 From AV.Gen Require Import RegexData.
 From AV Require Import Hash.HashModel Hash.HashProofs Hash.HashRealEnum Spec.SpecTypes.
@@ -101,29 +102,28 @@ Proof. exact u64_as_f64_correct. Qed.
 Theorem C20_f64_candidates : forall b, rep53 (f64_scaled b).
 Proof. exact f64_scaled_rep53. Qed.
 
-(* ---- floats, prefixed forms (0x.. 0X.. 0b.. 0B.. 0[0-7]+) with a value below 2^64: correctly rounded *)
+(* ---- floats, prefixed forms (0x.. 0X.. 0b.. 0B.. 0[0-7]+) of ANY length: the correctly rounded binary64 when
+        the value fits, nothing when it does not.  2^1024 - 2^970 is the IEEE overflow threshold: the smallest
+        number whose nearest binary64 would be 2^1024 *)
 Theorem C20_float_prefixed : forall (dec_parse : list N -> option N) t v,
-  prefixed_value t = Some v -> v < 2 ^ 64 ->
-  exists b, parse_float dec_parse (DString t) = Some b /\ correctly_rounded v b.
+  prefixed_value t = Some v ->
+  (exists b, parse_float dec_parse (DString t) = Some b /\ correctly_rounded v b) \/
+  (parse_float dec_parse (DString t) = None /\ 2 ^ 1024 - 2 ^ 970 <= v).
 Proof. exact parse_float_prefixed. Qed.
 
-(* the excluded class, characterised: the text goes to the decimal conversion *)
-Theorem C20_float_prefixed_big : forall (dec_parse : list N -> option N) t v,
-  prefixed_value t = Some v -> 2 ^ 64 <= v ->
-  parse_float dec_parse (DString t) = dec_parse t.
-Proof. exact parse_float_prefixed_big. Qed.
+Theorem C20_float_prefixed_fits : forall (dec_parse : list N -> option N) t v,
+  prefixed_value t = Some v -> v < 2 ^ 1024 - 2 ^ 970 ->
+  exists b, parse_float dec_parse (DString t) = Some b /\ correctly_rounded v b.
+Proof. exact parse_float_prefixed_fits. Qed.
 
-(* witnesses: octal 2^64 (exactly representable) comes back as the decimal conversion of the digits
-   2000000000000000000000; hexadecimal 2^65-1 comes back as the decimal conversion of a text that is no decimal number *)
-Theorem C20_float_prefixed_refuted :
+(* the inputs of the repaired defect (octal 2^64 used to come back as 2e21, hexadecimal 2^65-1 as nothing) *)
+Theorem C20_float_prefixed_regression :
   prefixed_value (BS "02000000000000000000000") = Some (2 ^ 64) /\
-  rep53 (2 ^ 64 * 2 ^ 1074) /\
-  digits_value 10 (BS "02000000000000000000000") = Some 2000000000000000000000 /\
-  (forall dec, parse_float dec (DString (BS "02000000000000000000000")) = dec (BS "02000000000000000000000")) /\
   prefixed_value (BS "0x1ffffffffffffffff") = Some (2 ^ 65 - 1) /\
-  (forall dec, parse_float dec (DString (BS "0x1ffffffffffffffff")) = dec (BS "0x1ffffffffffffffff")) /\
-  digits_value 10 (BS "0x1ffffffffffffffff") = None.
-Proof. exact parse_float_prefixed_refuted. Qed.
+  forall dec,
+    parse_float dec (DString (BS "02000000000000000000000")) = Some 4895412794951729152 /\
+    parse_float dec (DString (BS "0x1ffffffffffffffff")) = Some 4899916394579099648.
+Proof. exact parse_float_prefixed_regression. Qed.
 
 (* ---- floats: zero and the special spellings of the Numerical pattern, with no assumption on std *)
 Theorem C20_float_special : forall (dec_parse : list N -> option N),
